@@ -96,7 +96,7 @@ class Contract:
     def __init__(self, target, params=None, self_fields=None, requires=(), ensures=(), raises=None,
                  modifies=(), loops=None, returns=None, inline=False, decreases=None, cases=None,
                  ghost=None, assumed=False, note="", fresh_result=None, pure=False, bounded=None,
-                 self_class=None, defaults_fixed=True):
+                 self_class=None, defaults_fixed=True, lemmas=()):
         self.target = target                  # "module:qualname"
         self.params = params or {}            # param -> kind spec
         self.self_fields = self_fields or {}  # field -> kind spec (for methods)
@@ -117,6 +117,7 @@ class Contract:
         self.bounded = bounded
         self.self_class = self_class
         self.defaults_fixed = defaults_fixed
+        self.lemmas = list(lemmas)
 
     @property
     def qualname(self):
@@ -133,12 +134,20 @@ def _named(clauses, prefix):
     return out
 
 
+class Lemma:
+    """A specification-level lemma proved by structural induction on one datatype parameter and then
+    available (universally quantified) to the function proofs that name it."""
+
+    def __init__(self, name, params, statement, induction_on, note=""):
+        self.name, self.params, self.statement, self.induction_on, self.note = name, params, statement, induction_on, note
+
+
 class Raise(Exception):
     pass
 
 
 class Executor:
-    def __init__(self, registry, spec_funcs, adts=None, feas_timeout_ms=1500):
+    def __init__(self, registry, spec_funcs, adts=None, feas_timeout_ms=400):
         self.registry = registry          # qualname / function object -> Contract
         self.spec_funcs = spec_funcs
         self.adts = adts or {}
@@ -155,7 +164,8 @@ class Executor:
     # -------------------------------------------------------------------------------------
     # helpers
     def feasible(self, st):
-        r = self.feas.check(*st.pc)
+        # pruning only: quantified facts (lemmas, code-point ranges) are left out, "unknown" counts as feasible
+        r = self.feas.check(*[p for p in st.pc if not z3.is_quantifier(p)])
         return r != z3.unsat
 
     def branch(self, st, cond, note, k_true, k_false):
@@ -229,7 +239,9 @@ class Executor:
             st.assume(z3.And(c >= 0, c < MAXCP))
             return VChar(c)
         if kind == "float":
-            return VFloat(fresh(name, z3.Float64()))
+            r, c = fresh(name, z3.RealSort()), fresh(name + ".cls")
+            st.assume(z3.And(c >= 0, c <= 3))
+            return VFloat(r, c)
         if kind == "text":
             arr = z3.Array("%s.cp" % name, z3.IntSort(), z3.IntSort())
             n = z3.Int("%s.len" % name)
@@ -314,7 +326,7 @@ class Executor:
         if node.id in g:
             return k(st, lift(g[node.id]))
         if hasattr(builtins, node.id):
-            return k(st, VPy(getattr(builtins, node.id)))
+            return k(st, lift(getattr(builtins, node.id)))
         raise Unsupported("unbound name %s (line %d)" % (node.id, node.lineno))
 
     def x_Tuple(self, node, st, k):
@@ -479,13 +491,18 @@ class Executor:
         if isinstance(base, (VArr, VSlice, VSeq)) and isinstance(idx, VInt):
             n = str_len(base)
             i = idx.e
-            sel = lambda j: self.tr.index(base, VInt(j))
+
+            def sel_in(st_, j):
+                v = self.tr.index(base, VInt(j))
+                if isinstance(base, (VArr, VSlice)):
+                    st_.assume(z3.And(v.code >= 0, v.code < MAXCP))   # instance of the text's code-point range
+                return v
 
             def neg(s2):
                 return self.branch(s2, z3.And(i < 0, i >= -n), "L%d.negidx" % line,
-                                   lambda s3: k(s3, sel(i + n)),
+                                   lambda s3: k(s3, sel_in(s3, i + n)),
                                    lambda s3: self.raise_(s3, IndexError, line=line))
-            return self.branch(s, z3.And(i >= 0, i < n), "L%d.idx" % line, lambda s2: k(s2, sel(i)), neg)
+            return self.branch(s, z3.And(i >= 0, i < n), "L%d.idx" % line, lambda s2: k(s2, sel_in(s2, i)), neg)
         if isinstance(base, (VCStr, VTuple)) or (isinstance(base, VPy) and isinstance(base.obj, (tuple, list, str))):
             items = (list(base.s) if isinstance(base, VCStr) else base.items if isinstance(base, VTuple)
                      else list(base.obj))
@@ -767,7 +784,7 @@ class Executor:
         if adt_ctor:
             adt, ctor = adt_ctor
             return k(s, VData(adt.ctor(ctor)(*[a.e for a in pos]), adt))
-        if cls in (int, str, bool, float, list, dict, tuple):
+        if cls.__module__ == "builtins" and not issubclass(cls, BaseException):
             return self.call_builtin(s, cls, pos, kws, line, k)
         ref = s.alloc(HObj(cls, {}))
         init, owner = None, None
@@ -835,6 +852,12 @@ class Executor:
                     return k(s, VCls(t))
             if isinstance(v, VStr):
                 return k(s, VCls(str))
+            if isinstance(v, VData):
+                # class of an ADT value as an integer tag (only comparable with other such tags)
+                tag = z3.IntVal(len(v.adt.variants))
+                for i, (ctor, _c, _f) in enumerate(v.adt.variants):
+                    tag = z3.If(v.adt.recognizer(ctor, v.e), z3.IntVal(i), tag)
+                return k(s, VInt(tag))
         if name in ("min", "max") and len(pos) == 2 and all(isinstance(p, VInt) for p in pos):
             a, b = pos
             c = a.e <= b.e if name == "min" else a.e >= b.e
@@ -862,12 +885,12 @@ class Executor:
             if isinstance(v, VFloat):
                 return k(s, v)
             if isinstance(v, VBool):
-                return k(s, VFloat(z3.If(v.e, z3.FPVal(1.0, z3.Float64()), z3.FPVal(0.0, z3.Float64()))))
+                return k(s, VFloat(z3.If(v.e, z3.RealVal(1), z3.RealVal(0)), 0))
             if isinstance(v, VInt):
-                # int -> float: exact below 2**53; beyond that rounding / OverflowError (>= 2**1024)
+                # int -> float: rounding is not modelled (a real stands for the double); OverflowError beyond 2**1024
                 lim = z3.IntVal(2 ** 1024)
                 return self.branch(s, z3.And(v.e < lim, v.e > -lim), "L%d.float" % line,
-                                   lambda s2: k(s2, VFloat(z3.fpRealToFP(z3.RNE(), z3.ToReal(v.e), z3.Float64()))),
+                                   lambda s2: k(s2, VFloat(fresh("float.of.int", z3.RealSort()), 0)),
                                    lambda s2: self.raise_(s2, OverflowError, line=line))
         raise Unsupported("builtin %s%r (line %d)" % (name, tuple(pos), line))
 
@@ -879,18 +902,17 @@ class Executor:
             if isinstance(v, VInt):
                 return k(s, v)
             if isinstance(v, VFloat):
-                f = v.e
                 # int(float): ValueError on NaN, OverflowError on +-inf, else truncation toward zero
                 def finite(s2):
-                    r = z3.fpToReal(f)
+                    r = v.r
                     fl = z3.ToInt(r)
                     tr = z3.If(r >= 0, fl, z3.If(z3.ToReal(fl) == r, fl, fl + 1))
                     t = fresh("trunc")
                     s2.assume(t == tr)
                     return k(s2, VInt(t))
-                return self.branch(s, z3.fpIsNaN(f), "L%d.nan" % line,
+                return self.branch(s, v.nan, "L%d.nan" % line,
                                    lambda s2: self.raise_(s2, ValueError, line=line),
-                                   lambda s2: self.branch(s2, z3.fpIsInf(f), "L%d.inf" % line,
+                                   lambda s2: self.branch(s2, v.inf, "L%d.inf" % line,
                                                           lambda s3: self.raise_(s3, OverflowError, line=line), finite))
         if len(pos) == 2 and isinstance(pos[1], VInt) and z3.is_int_value(pos[1].e) and pos[1].e.as_long() == 16:
             v = pos[0]
@@ -954,9 +976,7 @@ class Executor:
             if meth == "is_integer":
                 pass
         if isinstance(base, VFloat) and meth == "is_integer" and not pos:
-            f = base.e
-            return k(s, VBool(z3.And(z3.Not(z3.fpIsNaN(f)), z3.Not(z3.fpIsInf(f)),
-                                     z3.fpEQ(z3.fpRoundToIntegral(z3.RTZ(), f), f))))
+            return k(s, VBool(z3.And(base.finite, z3.IsInt(base.r))))
         if isinstance(base, VRef):
             ho = s.heap[base.oid]
             if isinstance(ho, HList):
